@@ -19,7 +19,7 @@ ID = "C15"
 
 A_SPELL = ["src/a.c", "src/a_link.c", "srcl/a.c", "./src/./a.c", "src/../src/a.c", "lnk/a.c"]   # lnk/a.c: a link in *another* directory, beside a decoy h.h
 I_SPELL = ["inc", "inc/.", "srcl/../inc", "./inc//"]
-B_SECOND = [None, '#include "h.h"', '#include "h_link.h"', '#include "../inc/h.h"']
+B_SECOND = [None, '#include "h.h"', '#include "h_link.h"', '#include "../inc/h.h"', '#include "../incl/h.h"']      # incl -> inc: the header itself is no link, its directory is
 # "../cur/sub/g.h": `cur` is a directory link that points to src in some cases and to alt in others - the same spelled
 # path names different physical files in different analyses of one process
 G_SPELL = ["sub/g.h", "./sub/g.h", "sub/../sub/g.h", "../srcl/sub/g.h", "../cur/sub/g.h@src", "../cur/sub/g.h@alt"]
@@ -66,10 +66,12 @@ def build(base, case, canonical):
             need.add("L3")
         if second and "h_link" in second:
             need.add("L2")
+        if second and "incl/" in second:
+            need.add("L7")
         if X_LINKS[xl] == "outside-link":
             need.add("L4")
         if X_LINKS[xl] == "all-links-present":
-            need |= {"L1", "L2", "L3", "L4", "L5", "L6"}
+            need |= {"L1", "L2", "L3", "L4", "L5", "L6", "L7"}
         if "L1" in need:
             links["src/a_link.c"] = "a.c"
         if "L2" in need:
@@ -82,6 +84,8 @@ def build(base, case, canonical):
             links["lnk/a.c"] = "../src/a.c"
         if "L6" in need:
             links["inc/cfg.h"] = "cfg.h.in"
+        if "L7" in need:
+            links["incl"] = "inc"
         if "@" in gopt:
             links["cur"] = gopt.split("@")[1]
     codebase.write_tree(root, files, links)
